@@ -216,7 +216,7 @@ def work(item):
         def consistent(step):
             names, n, err = cstr_list(L, "Crystal_GetCrystalsList", None)
             exp = sorted(set(names0) | set(added))
-            if not fact(st, names == exp and n == len(exp), "crystal-extended:list", dict(step=step), [x.decode() for x in exp][:6], [x.decode("latin-1") for x in (names or [])][:6]):
+            if not fact(st, names == exp and n == len(exp), "crystal-extended:list", dict(step=step), [x.decode("latin-1") for x in exp][:6], [x.decode("latin-1") for x in (names or [])][:6]):
                 return False
             for nm in names:
                 p, err = L.call("Crystal_GetCrystal", nm, None)
@@ -227,7 +227,9 @@ def work(item):
                     return False
             return True
         steps = [("add", b"0_before_all"), ("add", b"zz_after_all"), ("add", b"LiF_between"), ("file", [b"00_file_first"]), ("file", [b"Mica_file_mid"]),
-                 ("file", [b"zzz_file_last"]), ("file", [b"Be_pair_a", b"~pair_b"]), ("add", b"AlphaA"), ("add", b"0_before_all"), ("file", [b"Mica_file_mid"])]
+                 ("file", [b"zzz_file_last"]), ("file", [b"Be_pair_a", b"~pair_b"]), ("add", b"AlphaA"), ("add", b"0_before_all"), ("file", [b"Mica_file_mid"]),
+                 # names whose first difference to a shipped name is a byte >= 0x80 (UTF-8 text): sorting and searching must agree on where they go
+                 ("add", b"LaB\xe2\x82\x86"), ("add", b"Ge\xc2\xb777K"), ("add", b"Si\xc3\xa9"), ("add", b"LaB\xe2\x82\x86")]
         for kind, what in steps:
             if kind == "add":
                 c = si.contents
@@ -236,7 +238,7 @@ def work(item):
                 cs.a, cs.b, cs.c, cs.alpha, cs.beta, cs.gamma, cs.volume, cs.n_atom, cs.atom = c.a, c.b, c.c, c.alpha, c.beta, c.gamma, c.volume, c.n_atom, c.atom
                 rv, err = L.call("Crystal_AddCrystal", ctypes.byref(cs), None)
                 dup = what in added
-                fact(st, (rv == 0 and err is not None) if dup else (rv == 1 and err is None), "crystal-extended:add", dict(name=what.decode(), duplicate=dup), "rejected" if dup else "accepted", dict(rv=rv, error=err))
+                fact(st, (rv == 0 and err is not None) if dup else (rv == 1 and err is None), "crystal-extended:add", dict(name=what.decode("latin-1"), duplicate=dup), "rejected" if dup else "accepted", dict(rv=rv, error=err))
                 if rv == 1 and not dup:
                     added.append(what)
             else:
@@ -274,7 +276,7 @@ def work(item):
                 L.fn["Crystal_Free"](p2)
             consistent("entry without atoms")
         L.fn["Crystal_Free"](si)
-        st.sample("crystal-extended", dict(added=[a.decode() for a in added]), cap=1)
+        st.sample("crystal-extended", dict(added=[a.decode("latin-1") for a in added]), cap=1)
         return st
     if part == "copies":
         # lookups hand out independent deep copies: scribble over every field of a copy, free it, fetch again, compare with a pristine snapshot
